@@ -669,6 +669,14 @@ impl DtlsInner {
                                     is_client,
                                 )
                                 .await?;
+                            } else if msg.msg_type == HandshakeType::Finished
+                                && !is_client
+                                && let Some(records) = &ctx.last_flight_records
+                            {
+                                // RFC 6347 4.2.4: a retransmitted client Finished means our
+                                // final flight (ChangeCipherSpec + Finished) was lost. No timer
+                                // covers that flight, so answer the retransmission with it.
+                                let _ = self.conn.send_dtls_record_batch(records).await;
                             }
                             continue;
                         }
